@@ -28,6 +28,7 @@ CHANGES = [
     ["cluster", "add_partition", "w", 0, 1],
     ["cluster", "remove_broker", 3],
     ["cluster", "readdress", 2, "kafka2b", 9999],
+    ["cluster", "readdress", 1, "kafka1", 9991],
     ["cluster", "add_broker", 4],
 ]
 LOADS = [["t"], ["u"], ["t", "u", "w"], []]
@@ -70,7 +71,8 @@ def history_configs(tier):
 
 
 PCLUSTER = {"brokers": [1, 2], "topics": {"t": {"0": 1, "1": 2}, "u": {"0": 1}}, "coordinator": 2}
-EVENTS = [["move", "t", 0, 2], ["move", "t", 1, 1], ["restart", 1], ["restart", 2], ["readdress", 1, "kafka1b", 9993]]
+# (broker 1 moves to another port of the same host; the consumer configurations move it to another host)
+EVENTS = [["move", "t", 0, 2], ["move", "t", 1, 1], ["restart", 1], ["restart", 2], ["readdress", 1, "kafka1", 9993]]
 
 
 def producer_configs(tier):
@@ -81,17 +83,24 @@ def producer_configs(tier):
             prod.update(batch_send=True, batch_every_n=2, batch_every_b=0, batch_every_t=0)
         out.append({"cluster": PCLUSTER, "discovery": False, "producer": prod, "timeout_ms": 2000,
                     "script": [["send", "t", None, ["a0"]], ["send", "t", None, ["b0"]], ["send", "u", None, ["c0"]],
-                               ["send", "t", None, ["d0"]]],
+                               ["send", "t", None, ["d0"]], ["wait", 40.0], ["send", "t", None, ["y0"]],
+                               ["send", "t", None, ["y1"]], ["send", "u", None, ["y2"]], ["send", "u", None, ["y3"]]],
                     "menu": {"cluster_events": EVENTS, "timer_early": True}})
-    # a broker dies for good (port closed) and its partitions move; also without acknowledgements, where only a
-    # send that could not be handed to a connection tells the client that its routing is stale
+    return out
+
+
+def dead_broker_configs(tier):
+    """A broker dies for good (port closed) and its partitions move; also without acknowledgements, where only a
+    send that could not be handed to a connection tells the client that its routing is stale."""
+    out = []
     for acks, batched in itertools.product([1, 0], [False, True]):
         prod = {"acks": acks, "max_req_attempts": 4, "retry_interval": 0.25}
         if batched:
             prod.update(batch_send=True, batch_every_n=2, batch_every_b=0, batch_every_t=0)
         out.append({"cluster": PCLUSTER, "discovery": False, "producer": prod, "timeout_ms": 2000,
                     "script": [["send", "t", None, ["a0"]], ["send", "t", None, ["b0"]], ["send", "u", None, ["c0"]],
-                               ["send", "t", None, ["d0"]], ["send", "u", None, ["e0"]], ["send", "t", None, ["f0"]]],
+                               ["send", "t", None, ["d0"]], ["wait", 40.0], ["send", "u", None, ["e0"]],
+                               ["send", "t", None, ["f0"]]],
                     "menu": {"cluster_events": [["kill", 1, 2], ["move", "t", 1, 1]], "timer_early": True}})
     return out
 
@@ -111,7 +120,7 @@ def consumer_configs(tier):
 
 RULE = ("histories: every sequence of <=3 (quick, thinned at depth 3) / <=4 (thorough) steps, each a cluster change "
         "from {leader moves, partition loses its leader, topic error 5 / cleared, partition removed / added, topic "
-        "removed / new topic, broker removed / re-addressed / added, no change} followed by a metadata load of {t}, "
+        "removed / new topic, broker removed / re-addressed (new host and port, or a new port on the same host) / added, no change} followed by a metadata load of {t}, "
         "{u}, {t,u,w} or all topics, on a warmed-up 3-broker client; after every answer the public view of covered "
         "topics (topic_partitions, topics_to_brokers, metadata_error_for_topic, partition_fully_replicated) must "
         "equal the response, other topics must be unchanged, vanished partitions must not look alive, a full refresh "
@@ -133,7 +142,9 @@ def run(tier, seed, only=None):
                        seed, RULE, ASSUME, rep=rep)
     if "self-heal" in parts:
         b = (2, 1, 3) if tier == "quick" else (3, 1, 4)
-        _dfs.run_plans(PROPERTY, "harness.producer:ProducerWorld", [("producer-self-heal", producer_configs(tier), b)],
+        _dfs.run_plans(PROPERTY, "harness.producer:ProducerWorld",
+                       [("producer-self-heal", producer_configs(tier), (2, 0, 2) if tier == "quick" else b),
+                        ("producer-dead-broker", dead_broker_configs(tier), (1, 1, 2) if tier == "quick" else (2, 1, 3))],
                        seed, RULE, ASSUME, rep=rep)
         _dfs.run_plans(PROPERTY, "harness.consumer:ConsumerWorld", [("consumer-self-heal", consumer_configs(tier), b)],
                        seed, RULE, ASSUME, rep=rep, max_steps=400)
